@@ -608,6 +608,13 @@ package decorator
 
 //@ func (f *fileDecorator) link
 //@ modifies allbut(map(ast.Node, dst.Node); map(dst.Node, ast.Node); heap(Decorator.Map); heap(fileDecorator.Decorator); heap(Decorator.Resolver); heap(Decorator.Path); heap(Decorator.Filenames); heap(Decorator.Fset); map(*dst.File, string); heap(fileDecorator.before); heap(fileDecorator.after); heap(fileDecorator.decorations); map(*ast.Object, *dst.Object); map(*dst.Object, *ast.Object); map(*ast.Scope, *dst.Scope); map(*dst.Scope, *ast.Scope))
+//@ requires distinct: f.fragsDistinct()
+//@ requires none_attached: forall m int :: {f.fragments[m]} 0 <= m && m < len(f.fragments) ==> fragUnattached(f.fragments[m])
+//@ ensures every_comment_attached: forall m int :: {f.fragments[m]} 0 <= m && m < len(f.fragments) && fragIsComment(f.fragments[m]) ==> cast(f.fragments[m], type(*commentFragment)).Attached != nil
+//@ loop 1 invariant ahead_unattached: forall d int, m int :: {f.fragments[d], f.fragments[m]} $i <= d && d < m && m < len(f.fragments) && fragIsDec(f.fragments[d]) ==> fragUnattached(f.fragments[m])
+//@ loop 1 invariant behind_attached: forall m int :: {f.fragments[m]} 0 <= m && m < $i && m < len(f.fragments) && fragIsComment(f.fragments[m]) ==> cast(f.fragments[m], type(*commentFragment)).Attached != nil
+//@ loop 2 invariant found_sweep: found ==> dec != nil && len(frags) > 0 && (forall j int :: {frags[j]} 0 <= j && j < len(frags) ==> fragUnattached(frags[j])) && (forall j int, k int :: {frags[j], frags[k]} 0 <= j && j < k && k < len(frags) ==> ref(frags[j]) != ref(frags[k])) && (forall j int, d int, m int :: {frags[j], f.fragments[d], f.fragments[m]} 0 <= j && j < len(frags) && i < d && d < m && m < len(f.fragments) && fragIsDec(f.fragments[d]) ==> ref(frags[j]) != ref(f.fragments[m])) && (frags[0] == f.fragments[i] || frags[len(frags)-1] == f.fragments[i])
+
 
 //@ pred (d *Decorator) decMapsInv() bool {
 //@   d.Dst.Nodes != nil && d.Ast.Nodes != nil && d.Filenames != nil &&
@@ -670,3 +677,79 @@ package decorator
 //@ func updateImports$3
 //@ attr inline
 //@ loop 1 invariant none_so_far: forall p string :: $visited[p] ==> has(r.packageNames, p) && r.packageNames[p] != name
+
+// ---------------------------------------------------------------------------------------------
+// Comment attachment (decorator-fragment.go): every comment fragment is attached to one decoration
+// point, once.
+
+//@ pure func fragIsComment(x fragment) bool { typeof(x) == type(*commentFragment) }
+//@ pure func fragIsNewline(x fragment) bool { typeof(x) == type(*newlineFragment) }
+//@ pure func fragIsDec(x fragment) bool { typeof(x) == type(*decorationFragment) }
+//@ pure func fragAttached(x fragment) *decorationFragment { typeof(x) == type(*commentFragment) ? cast(x, type(*commentFragment)).Attached : (typeof(x) == type(*newlineFragment) ? cast(x, type(*newlineFragment)).Attached : nil) }
+//@ pure func fragUnattached(x fragment) bool { (typeof(x) == type(*commentFragment) ==> cast(x, type(*commentFragment)).Attached == nil) && (typeof(x) == type(*newlineFragment) ==> cast(x, type(*newlineFragment)).Attached == nil) }
+
+//@ pred (f *fileDecorator) fragsDistinct() bool {
+//@   (forall j int :: {f.fragments[j]} 0 <= j && j < len(f.fragments) ==> ref(f.fragments[j]) != 0 && allocated(ref(f.fragments[j]))) &&
+//@   (forall j int, k int :: {f.fragments[j], f.fragments[k]} 0 <= j && j < k && k < len(f.fragments) ==> ref(f.fragments[j]) != ref(f.fragments[k]))
+//@ }
+
+//@ func (f *fileDecorator) findIndentedComments
+//@ requires distinct: f.fragsDistinct()
+//@ requires from: 0 <= from
+//@ requires rest_unattached: forall m int :: {f.fragments[m]} from <= m && m < len(f.fragments) ==> fragUnattached(f.fragments[m])
+//@ modifies newobjects
+//@ loop 1 invariant idx: from <= i && 0 <= stage && stage <= 1 && len(frags[0]) >= 0 && len(frags[1]) >= 0
+//@ loop 1 invariant own_arrays: (arr(frags[0]) == 0 || (!wasAllocated(arr(frags[0])) && allocated(arr(frags[0])))) && (arr(frags[1]) == 0 || (!wasAllocated(arr(frags[1])) && allocated(arr(frags[1])))) && (arr(frags[0]) == 0 || arr(frags[0]) != arr(frags[1]))
+//@ loop 1 invariant unattached0: forall j int :: {frags[0][j]} 0 <= j && j < len(frags[0]) ==> fragUnattached(frags[0][j]) && (fragIsComment(frags[0][j]) || fragIsNewline(frags[0][j]))
+//@ loop 1 invariant unattached1: forall j int :: {frags[1][j]} 0 <= j && j < len(frags[1]) ==> fragUnattached(frags[1][j]) && (fragIsComment(frags[1][j]) || fragIsNewline(frags[1][j]))
+//@ loop 1 invariant behind0: forall j int, m int :: {frags[0][j], f.fragments[m]} 0 <= j && j < len(frags[0]) && i <= m && m < len(f.fragments) ==> ref(frags[0][j]) != ref(f.fragments[m])
+//@ loop 1 invariant behind1: forall j int, m int :: {frags[1][j], f.fragments[m]} 0 <= j && j < len(frags[1]) && i <= m && m < len(f.fragments) ==> ref(frags[1][j]) != ref(f.fragments[m])
+//@ loop 1 invariant no_repeats: (forall j int, k int :: {frags[0][j], frags[0][k]} 0 <= j && j < k && k < len(frags[0]) ==> ref(frags[0][j]) != ref(frags[0][k])) && (forall j int, k int :: {frags[1][j], frags[1][k]} 0 <= j && j < k && k < len(frags[1]) ==> ref(frags[1][j]) != ref(frags[1][k])) && (forall j int, k int :: {frags[0][j], frags[1][k]} 0 <= j && j < len(frags[0]) && 0 <= k && k < len(frags[1]) ==> ref(frags[0][j]) != ref(frags[1][k]))
+//@ loop 1 invariant no_decoration_yet: forall d int :: {f.fragments[d]} from <= d && d < i && d < len(f.fragments) ==> !fragIsDec(f.fragments[d])
+//@ ensures lengths: len(frags[0]) >= 0 && len(frags[1]) >= 0
+//@ ensures unattached0: forall j int :: {frags[0][j]} 0 <= j && j < len(frags[0]) ==> fragUnattached(frags[0][j]) && (fragIsComment(frags[0][j]) || fragIsNewline(frags[0][j]))
+//@ ensures unattached1: forall j int :: {frags[1][j]} 0 <= j && j < len(frags[1]) ==> fragUnattached(frags[1][j]) && (fragIsComment(frags[1][j]) || fragIsNewline(frags[1][j]))
+//@ ensures within_gap0: forall j int, d int, m int :: {frags[0][j], f.fragments[d], f.fragments[m]} 0 <= j && j < len(frags[0]) && from <= d && d <= m && m < len(f.fragments) && fragIsDec(f.fragments[d]) ==> ref(frags[0][j]) != ref(f.fragments[m])
+//@ ensures within_gap1: forall j int, d int, m int :: {frags[1][j], f.fragments[d], f.fragments[m]} 0 <= j && j < len(frags[1]) && from <= d && d <= m && m < len(f.fragments) && fragIsDec(f.fragments[d]) ==> ref(frags[1][j]) != ref(f.fragments[m])
+//@ ensures no_repeats: (forall j int, k int :: {frags[0][j], frags[0][k]} 0 <= j && j < k && k < len(frags[0]) ==> ref(frags[0][j]) != ref(frags[0][k])) && (forall j int, k int :: {frags[1][j], frags[1][k]} 0 <= j && j < k && k < len(frags[1]) ==> ref(frags[1][j]) != ref(frags[1][k])) && (forall j int, k int :: {frags[0][j], frags[1][k]} 0 <= j && j < len(frags[0]) && 0 <= k && k < len(frags[1]) ==> ref(frags[0][j]) != ref(frags[1][k]))
+
+//@ func (f *fileDecorator) findDecoration
+//@ requires distinct: f.fragsDistinct()
+//@ requires from: 0 <= from && from < len(f.fragments)
+//@ requires direction: direction == 1 || direction == -1
+//@ modifies newobjects
+//@ loop 1 invariant idx: (direction == 1 ==> from <= i) && (direction == -1 ==> i <= from) && len(frags) >= 0
+//@ loop 1 invariant own_array: arr(frags) == 0 || (!wasAllocated(arr(frags)) && allocated(arr(frags)))
+//@ loop 1 invariant unattached: forall j int :: {frags[j]} 0 <= j && j < len(frags) ==> fragUnattached(frags[j]) && (fragIsComment(frags[j]) || fragIsNewline(frags[j]))
+//@ loop 1 invariant behind: forall j int, m int :: {frags[j], f.fragments[m]} 0 <= j && j < len(frags) && 0 <= m && m < len(f.fragments) && ((direction == 1 && (i <= m || m < from)) || (direction == -1 && (m <= i || from < m))) ==> ref(frags[j]) != ref(f.fragments[m])
+//@ loop 1 invariant no_repeats: forall j int, k int :: {frags[j], frags[k]} 0 <= j && j < k && k < len(frags) ==> ref(frags[j]) != ref(frags[k])
+//@ loop 1 invariant no_decoration_yet: forall d int :: {f.fragments[d]} 0 <= d && d < len(f.fragments) && ((direction == 1 && from <= d && d < i) || (direction == -1 && i < d && d <= from)) ==> !fragIsDec(f.fragments[d])
+//@ loop 1 invariant empty_at_start: i == from ==> len(frags) == 0
+//@ loop 1 invariant holds_start: i != from && fragUnattached(f.fragments[from]) && (fragIsComment(f.fragments[from]) || fragIsNewline(f.fragments[from])) ==> len(frags) > 0 && (direction == 1 ==> frags[0] == f.fragments[from]) && (direction == -1 ==> frags[len(frags)-1] == f.fragments[from])
+//@ ensures length: len(swept) >= 0
+//@ ensures unattached: forall j int :: {swept[j]} 0 <= j && j < len(swept) ==> fragUnattached(swept[j]) && (fragIsComment(swept[j]) || fragIsNewline(swept[j]))
+//@ ensures no_repeats: forall j int, k int :: {swept[j], swept[k]} 0 <= j && j < k && k < len(swept) ==> ref(swept[j]) != ref(swept[k])
+//@ ensures not_beyond_next_decoration: direction == 1 ==> (forall j int, d int, m int :: {swept[j], f.fragments[d], f.fragments[m]} 0 <= j && j < len(swept) && from <= d && d <= m && m < len(f.fragments) && fragIsDec(f.fragments[d]) ==> ref(swept[j]) != ref(f.fragments[m]))
+//@ ensures not_after_start: direction == -1 ==> (forall j int, m int :: {swept[j], f.fragments[m]} 0 <= j && j < len(swept) && from < m && m < len(f.fragments) ==> ref(swept[j]) != ref(f.fragments[m]))
+//@ ensures holds_start: found && fragUnattached(f.fragments[from]) && (fragIsComment(f.fragments[from]) || fragIsNewline(f.fragments[from])) ==> len(swept) > 0 && (direction == 1 ==> swept[0] == f.fragments[from]) && (direction == -1 ==> swept[len(swept)-1] == f.fragments[from])
+//@ ensures found_decoration: found ==> dec != nil && allocated(dec)
+
+// attachToDecoration is the only writer of Attached; what it is given is unattached and free of
+// repeats, so every fragment is attached at most once.
+//@ func appendDecoration
+//@ modifies map(ast.Node, map[string][]string), map(string, []string), elems(string), newobjects
+
+//@ func appendNewLine
+//@ modifies map(ast.Node, map[string][]string), map(string, []string), elems(string), newobjects
+
+//@ func (f *fileDecorator) attachToDecoration
+//@ requires write_once: forall j int :: {frags[j]} 0 <= j && j < len(frags) ==> fragUnattached(frags[j])
+//@ requires no_repeats: forall j int, k int :: {frags[j], frags[k]} 0 <= j && j < k && k < len(frags) ==> ref(frags[j]) != ref(frags[k])
+//@ requires to_a_decoration: dec != nil
+//@ modifies heap(commentFragment.Attached), heap(newlineFragment.Attached), map(ast.Node, map[string][]string), map(string, []string), elems(string), newobjects
+//@ loop 1 invariant rest_unattached: forall j int :: {frags[j]} $i <= j && j < len(frags) ==> fragUnattached(frags[j])
+//@ loop 1 invariant attached: forall j int :: {frags[j]} 0 <= j && j < $i && j < len(frags) ==> (fragIsComment(frags[j]) || fragIsNewline(frags[j]) ==> fragAttached(frags[j]) == dec)
+//@ loop 1 invariant others_untouched: forall x fragment :: {fragAttached(x)} (forall j int :: {frags[j]} 0 <= j && j < len(frags) ==> frags[j] != x) ==> fragAttached(x) == old(fragAttached(x))
+//@ loop 1 invariant list_kept: len(frags) == old(len(frags)) && (forall j int :: {frags[j]} 0 <= j && j < len(frags) ==> frags[j] == old(frags[j]))
+//@ ensures attached: forall j int :: {frags[j]} 0 <= j && j < len(frags) ==> (fragIsComment(frags[j]) || fragIsNewline(frags[j]) ==> fragAttached(frags[j]) == dec)
+//@ ensures others_untouched: forall x fragment :: {fragAttached(x)} (forall j int :: {frags[j]} 0 <= j && j < len(frags) ==> frags[j] != x) ==> fragAttached(x) == old(fragAttached(x))
